@@ -161,7 +161,7 @@ impl Property for C14 {
         "exploration"
     }
     fn rule(&self) -> &'static str {
-        "A scenario = streaming pipeline (any of --set, --split-by, --filter, --select, --unique, --only-objects-and-arrays, any output style) with --take T in 0..5 and --skip S in 0..3, a finite generated prefix (garbage allowed) followed by an endless tail of records produced by the stub on demand (tail records all distinct, or repeating with a period of 1..6 so that --unique or a filter dries the pipeline up after the limit), delivered raw (1-byte requests) or through a harness BufReader with seeded chunk limits and EINTR. The limit is verified to have been reached within M tail records (same output on M and 2M records, and the T-th row is there: the output differs from that of --take T-1); otherwise the scenario is skipped as invalid. Families: stdin (SimSource), 1..3 file arguments the last of which never ends plus an optional further file that must never be opened, a directory whose files are all the same endless stream (exactly one may be opened), and the real executable on a pipe fed by a producer thread. Reference = the same limited pipeline on the finite stream prefix+M records: d = input bytes consumed when its last stdout byte was written. The endless run must return (no simulator abort at d+256 KiB), with the same result kind and stdout, having pulled at most d+128 KiB through the stdin seam. evaluations = jawk executions; non-trivial = the endless run was executed against a saturated limiter; distinct = distinct abstract traces."
+        "A scenario = streaming pipeline (any of --set, --split-by, --filter, --select, --unique, --only-objects-and-arrays, any output style) with --take T in 0..5 and --skip S in 0..3, a finite generated prefix (garbage allowed) followed by an endless tail of records produced by the stub on demand (tail records all distinct, or repeating with a period of 1..6 so that --unique or a filter dries the pipeline up after the limit), delivered raw (1-byte requests) or through a harness BufReader with seeded chunk limits and EINTR. The limit is verified to have been reached within M tail records (same output on M and 2M records, and the T-th row is there: the output differs from that of --take T-1); otherwise the scenario is skipped as invalid. Families: stdin (SimSource), 1..3 file arguments the last of which never ends plus an optional further file that must never be opened, a directory whose files are all the same endless stream (exactly one may be opened), and the real executable on a pipe fed by a producer thread. Reference = the same limited pipeline on the finite stream prefix+M records: d = input bytes consumed when its last stdout byte was written. The endless run must return (no simulator abort at d+256 KiB), with the same result kind and stdout, having pulled at most d+128 KiB through the stdin seam. One scenario in three is built from pipelines and tails of which the harness knows by construction that every tail record yields a row (filters on &index, on the parent of a split element, on a field the tail sets; a tail that is one value over and over): there the T-th row must exist on prefix + M tail records (C14.known-rows), independent of any reference run. The prefix may hold correctly quoted strings that are not UTF-8. evaluations = jawk executions; non-trivial = the endless run was executed against a saturated limiter; distinct = distinct abstract traces."
     }
     fn assumptions(&self) -> Vec<String> {
         vec![
